@@ -94,6 +94,7 @@ def tasks(tier):
     out.append('ducowicz_bounded')
     out.append('dispatch')
     out.append('prefun')
+    out.append('stubs')
     for s in ITERATIVE:
         out.append('gal:%s' % s)
         if 'scale:%s' % s not in NOT_VERIFIED:
@@ -190,13 +191,15 @@ def _externals(nofloor):
                 return a
             return S.maxval(args[0], args[1])
         ext['max'] = mx
+    # printf only reports; it has no effect on the state (dropped)
+    ext['printf'] = lambda e, s_, a, k, n: None
     return ext
 
 
 def run_solver(repo, m, fn, args, pre, hook=None, loop_spec=None,
                nofloor=False, merge=True):
     ex = Executor(repo, m, qualname=fn, definedness='assume', merge=merge,
-                  inline={'SIGN', 'printf', 'prefun_exact'}, prune=False,
+                  inline={'SIGN', 'prefun_exact'}, prune=False,
                   externals=_externals(nofloor),
                   loop_specs={(fn, 0): loop_spec} if loop_spec else {})
     ex.on_assign = hook
@@ -464,11 +467,57 @@ def replay_eq(fn):
 
 
 # --------------------------------------------------------------------- tasks
+def task_stubs(ctx, repo, m):
+    """The solvers run as plain Python too (that is how they are tested and
+    how this check replays them).  `printf` is a Python stand-in for the C
+    function of the transpiled build: every call made to it in this module
+    is one its signature accepts -- a solver that reports "did not converge"
+    returns its failure code, it does not raise TypeError."""
+    import ast as _ast
+    stub = m.functions.get('printf')
+    calls = []
+    for fn in m.functions.values():
+        for node in _ast.walk(fn):
+            if isinstance(node, _ast.Call) and isinstance(
+                    node.func, _ast.Name) and node.func.id == 'printf':
+                calls.append((fn.name, len(node.args), getattr(node, 'lineno',
+                                                               0)))
+    ok = stub is not None and bool(calls)
+    why = []
+    if stub is not None:
+        a = stub.args
+        lo = len(a.args) - len(a.defaults)
+        hi = None if a.vararg else len(a.args)
+        for (f, n, ln) in calls:
+            if n < lo or (hi is not None and n > hi):
+                ok = False
+                why.append('%s line %d calls printf with %d argument(s)' % (
+                    f, ln, n))
+        ctx.function(m, stub, 'printf (Python stand-in)')
+
+    def rp(model, ob):
+        mod = native.load(MOD)
+        r = [0.0, 0.0]
+        try:
+            code = mod.exact(1.0, 0.125, 1.0, 0.1, 0.0, 0.0, 1.4, 2, 1e-10,
+                             r)
+            return dict(reproduced=code != 1, returned=code)
+        except TypeError as e:
+            return dict(reproduced=True, case='Sod shock tube, niter=2, '
+                        'tol=1e-10 (cannot converge in 2 iterations)',
+                        raised='TypeError: %s' % e, expected_return=1)
+    ctx.prove('stubs.printf_accepts_the_calls_made_to_it', [Obligation(
+        'stubs.printf_arity', [], z3.BoolVal(bool(ok)), m.path,
+        extra=dict(calls=calls, problems=why))], replay=rp)
+
+
 def run_task(task, ctx):
     repo = Repo()
     m = repo.module(MOD)
     parts = task.split(':')
     kind = parts[0]
+    if kind == 'stubs':
+        return task_stubs(ctx, repo, m)
     if kind in ('refl', 'gal', 'scale'):
         fn = parts[1]
         nofloor = (kind == 'scale' and fn == 'van_leer')
